@@ -62,7 +62,7 @@ impl Property for C11 {
         PbtCfg { cases: tier.pick(120_000, 4_000_000), max_len: tier.pick(2000, 6000), shrink_ms: 120_000 }
     }
     fn required_labels(&self) -> Vec<&'static str> {
-        vec!["broadcast", "broadcast_except", "broadcast_with_dead_client", "late_join", "stalled_stream", "hostile_client", "fault_free_case", "healed_complete"]
+        vec!["broadcast", "broadcast_except", "broadcast_with_dead_client", "late_join", "stalled_stream", "hostile_client", "fault_free_case", "healed_complete", "impolite_broadcast"]
     }
     fn run_choices(&self, ctx: &mut Ctx) -> Outcome {
         let (cfgspec, mut ops) = spec(ctx.tier);
@@ -92,7 +92,10 @@ impl Property for C11 {
                     let except = if which == 1 { Some(ctx.src.below(n)) } else { None };
                     let recipients: Vec<usize> = (0..n).filter(|&i| server_side_connected(w, i) && Some(i) != except).collect();
                     let polite_ok = recipients.iter().all(|&i| w.server.can_send_message(client_id(i), ch.id, len));
-                    if !polite_ok {
+                    // mostly a polite application; sometimes it broadcasts although a reliable channel of some recipient is
+                    // full: that recipient is then disconnected (documented), everybody who stays connected must get the message
+                    let impolite = !polite_ok && ch.kind.reliable() && ctx.src.chance(120);
+                    if !polite_ok && !impolite {
                         XOp::BroadcastSkipped
                     } else {
                         let mut mask = 0u32;
@@ -106,7 +109,15 @@ impl Property for C11 {
                             None => w.server.broadcast_message(ch.id, content.clone()),
                         }
                         for &i in recipients.iter() {
+                            // a recipient whose channel was full is disconnected by the send; whoever is still connected has it queued
+                            if impolite && !server_side_connected(w, i) {
+                                ctx.label("broadcast_disconnected_full_client");
+                                continue;
+                            }
                             w.register(Dir { client: i, to_client: true }, ch.id, content.clone(), ch.kind);
+                        }
+                        if impolite {
+                            ctx.label("impolite_broadcast");
                         }
                         ctx.label(if except.is_some() { "broadcast_except" } else { "broadcast" });
                         if (0..n).any(|i| w.active[i] && (!w.conn_alive(i) || w.hostile_seen[i])) || w.blackhole.is_some() {
